@@ -338,7 +338,8 @@ class MinFlowDecompCycles(walkmodel.AbstractWalkModelDiGraph):
 
         given_weights_start_time = time.perf_counter()
 
-        all_weights = set({self.G.edges[e][self.flow_attr] for e in self.G.edges() if self.flow_attr in self.G.edges[e]})
+        # Only the values that have to be explained are candidate weights (an ignored edge can carry any value)
+        all_weights = set({self.G.edges[e][self.flow_attr] for e in self.G.edges() if self.flow_attr in self.G.edges[e] and e not in self.edges_to_ignore})
         all_weights_list = list(all_weights)
         
         # We call this so that the generating set is computed and stored in the class, if this optimization is activated
